@@ -148,7 +148,8 @@ def _coverage_geom(sc, gbbox):
         return {'datasource': '/simfs/conf/cov.txt', 'srs': 'EPSG:3857'}, poly, {'/simfs/conf/cov.txt': poly.wkt + '\n'}
     p1 = box(x0 + a * w * 0.4, y0 + b * h * 0.4, x0 + a * w * 0.4 + 0.15 * w, y0 + b * h * 0.4 + 0.2 * h)
     p2 = box(x0 + (0.5 + c * 0.3) * w, y0 + (0.5 + d * 0.3) * h, x0 + (0.5 + c * 0.3) * w + 0.1 * w, y0 + (0.5 + d * 0.3) * h + 0.12 * h)
-    mp = MultiPolygon([p1, p2])
+    from shapely.ops import unary_union
+    mp = unary_union([p1, p2])      # the two parts may overlap: the coverage is their union (mapproxy does the same)
     return {'datasource': '/simfs/conf/cov.txt', 'srs': 'EPSG:3857'}, mp, {'/simfs/conf/cov.txt': p1.wkt + '\n' + p2.wkt + '\n'}
 
 
@@ -178,6 +179,12 @@ def _expected(grid, meta, levels, geom, skip_geoms):
     ul = grid.origin in ('ul', 'nw')
     pg = prep(geom) if geom is not None else None
     mx, my = meta
+    pg_in = None
+    if geom is not None:
+        # only the part of the coverage inside the grid extent (shrunk by a pixel of the finest level) can demand tiles
+        fr = min(grid.resolutions[z] for z in levels)
+        inside = geom.intersection(box(x0 + fr, y0 + fr, x1 - fr, y1 - fr))
+        pg_in = prep(inside) if not inside.is_empty else None
     for idx, z in enumerate(levels):
         res = grid.resolutions[z]
         nx, ny = grid.grid_sizes[z]
@@ -196,11 +203,11 @@ def _expected(grid, meta, levels, geom, skip_geoms):
                     must.add((X, Y, z))
                     allowed.add((X, Y, z))
                     continue
-                inner = box(bx0 + res, by0 + res, bx1 - res, by1 - res)
                 outer = box(bx0 - res, by0 - res, bx1 + res, by1 + res)
-                # only the part of the meta tile inside the grid extent counts
-                if pg.intersects(inner) and inner.intersection(geom).intersects(box(x0 + res, y0 + res, x1 - res, y1 - res)):
-                    must.add((X, Y, z))
+                if bx1 - bx0 > 2 * res and by1 - by0 > 2 * res and pg_in is not None:
+                    inner = box(bx0 + res, by0 + res, bx1 - res, by1 - res)
+                    if pg_in.intersects(inner):
+                        must.add((X, Y, z))
                 if relaxed or pg.intersects(outer):
                     allowed.add((X, Y, z))
     return must, allowed
